@@ -14,7 +14,7 @@ import NodisVerif.Proofs.RespWriterServe
   Dispatch: `step` / `run` (Proofs/C08Step.lean) for an ARBITRARY handler table `H` satisfying the
   explicit well-formedness predicate `TableOneReply H` (every handler result is one value, for all
   stores, clocks and choices, panics included); discharged for the server's COMPLETE dispatch
-  `fullTable = Driver.lookup [Handler.table1, Handler2.table2, Handler3.table3]` (`Main.tables`),
+  `fullTable = Driver.lookup [Handler.table1, Handler2.table2, Handler3.table3, Handler4.table4]` (`Main.tables`),
   without exception: `fullTable_ok`.  (MGET was a finding; the `fix:` is modelled and proved.)
 
   Side conditions of the wire-level theorems, both necessary (`arrOK_necessary`, `linesOK_necessary`):
@@ -1052,5 +1052,74 @@ example : AW.run {} [.error (Bytes.ofString "ERR x"), .flush none, .uint64 18446
     some { delivered := Bytes.ofString "-ERR x\r\n", pending := Bytes.ofString ":18446744073709551615\r\n", err := false } := by decide +kernel
 
 end Writer
+/-! ### the commands that had no model: `Handler4.table4` (CLIENT, CONFIG, INFO, QUIT, SAVE, GEO*)
+
+  `fullTable` (and with it `fullTable_ok`, `fullTable_wire_ok`, `one_reply_full`, `pipeline_in_sync_full`)
+  now ranges over table1 + table2 + table3 + table4: no command of handler.go's dispatch table is left
+  outside the model (`Spec/SourceFacts.lean`: `unmodelled = []`).  For the relational replies (members and
+  distances of radius queries, decimal coordinate text) the statement covers EVERY choice list the
+  implementation could hand in, well-formed or not. -/
+
+/-- every handler of table4, every argument vector, store, clock and choice, panics included: exactly one
+    RESP value -/
+theorem table4_ok : TableOneReply Handler4.table4 := Proofs.C16Table4.table4_tableOneReply
+
+/-- … and only tokens a strict reader accepts -/
+theorem table4_wire_ok : TableWire Handler4.table4 := Proofs.C16Table4.table4_wire
+
+theorem one_reply_per_command_CLIENT (sv : Server) (c : Cmd) (hn : c.name = "CLIENT") :
+    oneValue (step fullTable sv c).2 = true :=
+  one_reply_full_nonspecial sv c (by rw [hn]; decide)
+theorem one_reply_per_command_CONFIG (sv : Server) (c : Cmd) (hn : c.name = "CONFIG") :
+    oneValue (step fullTable sv c).2 = true :=
+  one_reply_full_nonspecial sv c (by rw [hn]; decide)
+theorem one_reply_per_command_INFO (sv : Server) (c : Cmd) (hn : c.name = "INFO") :
+    oneValue (step fullTable sv c).2 = true :=
+  one_reply_full_nonspecial sv c (by rw [hn]; decide)
+theorem one_reply_per_command_QUIT (sv : Server) (c : Cmd) (hn : c.name = "QUIT") :
+    oneValue (step fullTable sv c).2 = true :=
+  one_reply_full_nonspecial sv c (by rw [hn]; decide)
+theorem one_reply_per_command_SAVE (sv : Server) (c : Cmd) (hn : c.name = "SAVE") :
+    oneValue (step fullTable sv c).2 = true :=
+  one_reply_full_nonspecial sv c (by rw [hn]; decide)
+theorem one_reply_per_command_GEOADD (sv : Server) (c : Cmd) (hn : c.name = "GEOADD") :
+    oneValue (step fullTable sv c).2 = true :=
+  one_reply_full_nonspecial sv c (by rw [hn]; decide)
+theorem one_reply_per_command_GEOHASH (sv : Server) (c : Cmd) (hn : c.name = "GEOHASH") :
+    oneValue (step fullTable sv c).2 = true :=
+  one_reply_full_nonspecial sv c (by rw [hn]; decide)
+theorem one_reply_per_command_GEOPOS (sv : Server) (c : Cmd) (hn : c.name = "GEOPOS") :
+    oneValue (step fullTable sv c).2 = true :=
+  one_reply_full_nonspecial sv c (by rw [hn]; decide)
+theorem one_reply_per_command_GEODIST (sv : Server) (c : Cmd) (hn : c.name = "GEODIST") :
+    oneValue (step fullTable sv c).2 = true :=
+  one_reply_full_nonspecial sv c (by rw [hn]; decide)
+theorem one_reply_per_command_GEORADIUS (sv : Server) (c : Cmd) (hn : c.name = "GEORADIUS") :
+    oneValue (step fullTable sv c).2 = true :=
+  one_reply_full_nonspecial sv c (by rw [hn]; decide)
+theorem one_reply_per_command_GEORADIUSBYMEMBER (sv : Server) (c : Cmd) (hn : c.name = "GEORADIUSBYMEMBER") :
+    oneValue (step fullTable sv c).2 = true :=
+  one_reply_full_nonspecial sv c (by rw [hn]; decide)
+
+/-- the new commands ARE in the complete dispatch -/
+example : (fullTable "GEOADD" []).isSome = true ∧ (fullTable "INFO" []).isSome = true ∧ (fullTable "QUIT" []).isSome = true ∧
+    (fullTable "GEORADIUSBYMEMBER" [[1]]).isSome = true := by decide
+
+/-- a pipeline through the new commands, replies computed by the model (decimal coordinates parsed and
+    encoded by the exact arithmetic: the score is Redis' 3479099956230698 for Palermo; GEOHASH / GEOPOS
+    as nodis answers them - FINDINGS.md) -/
+example :
+    (run fullTable {} [ { id := "c", name := "GEOADD", args := [[103], Bytes.ofString "13.361389", Bytes.ofString "38.115556", Bytes.ofString "Palermo"] },
+      { id := "c", name := "ZSCORE", args := [[103], Bytes.ofString "Palermo"] },
+      { id := "c", name := "GEOHASH", args := [[103], Bytes.ofString "Palermo", Bytes.ofString "nobody"] },
+      { id := "c", name := "GEOPOS", args := [[103], Bytes.ofString "nobody"] },
+      { id := "c", name := "GEODIST", args := [[103], Bytes.ofString "Palermo", Bytes.ofString "Palermo"] },
+      { id := "c", name := "GEORADIUS", args := [[115], [48], [48], [49]] },
+      { id := "c", name := "CONFIG", args := [Bytes.ofString "GET", Bytes.ofString "databases"] },
+      { id := "c", name := "GEOADD", args := [[103], [49]] }]).2 =
+    [[Tok.int 1], [Tok.bulk (Bytes.ofString "3479099956230698")], [Tok.arr 1, Tok.bulk (Bytes.ofString "sf7h526gsz0")],
+     [Tok.arr 1, Tok.nullBulk], [Tok.bulk (Bytes.ofString "0.0000")], [Tok.arr 0],
+     [Tok.arr 2, Tok.bulk (Bytes.ofString "databases"), Tok.bulk [48]], [Tok.err 0]] := by
+  decide +kernel
 
 end NodisVerif.C16
